@@ -58,6 +58,10 @@ def cases(tier):
                f"let\n  args = {{\n    version = \"OUTER\";\n  }};\nin\n{o}let\n  args = {{\n    version = {D};\n  }};\nin\npkgs.mk args\n{c}", "version", None)
     yield ("target-name-rebound-bare-body",
            f"let\n  args = {{\n    version = \"OUTER\";\n  }};\nin\n{{ pkgs }}:\nlet\n  args = {{\n    version = {D};\n  }};\nin\nargs\n", "version", None)
+    # ... and directly: the set reached through a bare name / below a `with`, the referenced name rebound between definition and use
+    yield "bare-target-inner-shadow", f"let\n  v = {D};\n  cfg = {{\n    version = v;\n  }};\nin\nlet\n  v = \"1\";\nin\ncfg\n", "version", None
+    yield "bare-target-inner-with", f"let\n  v = {D};\n  cfg = {{\n    version = v;\n  }};\nin\nwith {{ v = \"1\"; }};\ncfg\n", "version", None
+    yield "bare-target-inner-shadow-twice", f"let\n  v = {D};\n  cfg = {{\n    version = v;\n  }};\nin\nlet\n  v = \"1\";\nin\ncfg\n", "version;version", None
     yield "unbound", "{\n  version = v;\n}\n", "version", "{\n  version = \"NEW\";\n}\n"
     yield "unbound-in-let", "let\n  w = 1;\nin\n{\n  version = v;\n}\n", "version", "let\n  w = 1;\nin\n{\n  version = \"NEW\";\n}\n"
     yield "formal-not-editable", "{ v }:\n{\n  version = v;\n}\n", "version", "{ v }:\n{\n  version = \"NEW\";\n}\n"
